@@ -145,6 +145,18 @@ CHECKS = {
         TRUSTED + "; gains compared at 2e-4 absolute",
         "DESIGN.md 4/C16",
     ),
+    "C17": (
+        "model_checking",
+        "spec/Fsc.tla labels every Fourier bin with its shell by exact integer comparison and computes per-shell "
+        "Re sum F1 conj F2, sum|F1|^2, sum|F2|^2 on exact Gaussian-integer DFTs (box lengths 1,2,4); TLC checks symmetry in "
+        "the inputs, self-correlation = power, gain covariance and Parseval on the exact values for every case and emits the "
+        "per-shell numbers (and the shell occupancy of 22 further shapes up to 6^3); the real function is compared shell by "
+        "shell, with boundedness/symmetry/gain-invariance/self=1 relations on its outputs, and loader/group FSC is checked "
+        "through the relations the property states (FSC of the two C09 half-averages after the mask, reproducible per seed).",
+        "TLA+ spec Fsc.tla (exact DFT over Gaussian integers) model-checked by TLC; emitted per-shell values replayed against the real function; loader-level relations between real calls",
+        TRUSTED + "; values on box lengths other than 1,2,4 are covered only through shell occupancy and relations",
+        "DESIGN.md 4/C17",
+    ),
 }
 
 REASON_TODO = "check not built yet in this round (planned: see DESIGN.md section 4)"
